@@ -38,13 +38,21 @@ type c11store struct {
 	l     *c11log
 	kind  string
 	start c11state
+	fail  bool // the first WriteState returns an error (the store is down)
+	calls int
 }
 
 func (s *c11store) ReadState(*http.Request) (authboss.ClientState, error) { return s.start, nil }
 func (s *c11store) WriteState(w http.ResponseWriter, st authboss.ClientState, evs []authboss.ClientStateEvent) error {
 	s.l.add(s.kind, "", append([]authboss.ClientStateEvent(nil), evs...))
+	s.calls++
+	if s.fail && s.calls == 1 {
+		return errStoreDown
+	}
 	return nil
 }
+
+var errStoreDown = fmt.Errorf("client state store is down")
 
 type c11base struct {
 	l *c11log
@@ -129,11 +137,11 @@ type c11get struct {
 }
 
 // c11run executes the program behind the real LoadClientStateMiddleware.
-func c11run(prog []c11op, sessStart, cookStart c11state) (*c11log, []c11get, string) {
+func c11run(prog []c11op, sessStart, cookStart c11state, failS, failC bool) (*c11log, []c11get, string) {
 	l := &c11log{}
 	ab := authboss.New()
-	ab.Config.Storage.SessionState = &c11store{l: l, kind: "sessWrite", start: sessStart}
-	ab.Config.Storage.CookieState = &c11store{l: l, kind: "cookWrite", start: cookStart}
+	ab.Config.Storage.SessionState = &c11store{l: l, kind: "sessWrite", start: sessStart, fail: failS}
+	ab.Config.Storage.CookieState = &c11store{l: l, kind: "cookWrite", start: cookStart, fail: failC}
 	var gets []c11get
 	h := ab.LoadClientStateMiddleware(http.HandlerFunc(func(w http.ResponseWriter, r *http.Request) {
 		for _, o := range prog {
@@ -165,7 +173,15 @@ func c11run(prog []c11op, sessStart, cookStart c11state) (*c11log, []c11get, str
 				gets = append(gets, c11get{"C", o.K, v, ok})
 			case "header":
 				l.add("op", o.String(), nil)
-				w.WriteHeader(o.N)
+				func() {
+					// WriteHeader panics when a store fails; a recovering handler carries on
+					defer func() {
+						if p := recover(); p != nil && !failS && !failC {
+							panic(p)
+						}
+					}()
+					w.WriteHeader(o.N)
+				}()
 			case "write":
 				l.add("op", o.String(), nil)
 				w.Write(make([]byte, o.N))
@@ -199,7 +215,7 @@ func evText(e authboss.ClientStateEvent) string {
 }
 
 // c11check is the offline checker over the recorded log.
-func c11check(prog []c11op, l *c11log, gets []c11get, sessStart, cookStart c11state, pan string) (string, string) {
+func c11check(prog []c11op, l *c11log, gets []c11get, sessStart, cookStart c11state, pan string, failS, failC bool) (string, string) {
 	if pan != "" {
 		return "panic", pan
 	}
@@ -226,6 +242,9 @@ func c11check(prog []c11op, l *c11log, gets []c11get, sessStart, cookStart c11st
 	}
 	if !wrote {
 		wantS, wantC = nil, nil // nothing is released unless the handler writes
+	}
+	if failS && len(wantS) > 0 {
+		wantC = nil // the flush stops at the first store that fails
 	}
 	var gotS, gotC [][]string
 	firstBase, lastState := 0, 0
@@ -272,6 +291,34 @@ func c11check(prog []c11op, l *c11log, gets []c11get, sessStart, cookStart c11st
 	if (len(wantC) > 0) != (len(gotC) == 1) && !(len(wantC) == 0 && len(gotC) == 1 && len(gotC[0]) == 0) {
 		return "cookie-delivery-count", fmt.Sprintf("want %d events, %d deliveries", len(wantC), len(gotC))
 	}
+	if (failS || failC) && firstBase != 0 {
+		// the first flush failed: nothing of THAT write may have been released; later writes may pass
+		firstWriteSeq := 0
+		for _, e := range l.entries {
+			if e.Kind == "op" && (strings.HasPrefix(e.Text, "header(") || strings.HasPrefix(e.Text, "write(")) {
+				firstWriteSeq = e.Seq
+				break
+			}
+		}
+		failed := (failS && len(wantS) > 0) || (failC && len(wantC) > 0)
+		if failed {
+			for _, e := range l.entries {
+				if (e.Kind == "baseHeader" || e.Kind == "baseWrite") && e.Seq > firstWriteSeq {
+					// is this base event caused by the first write op? it is if no other write op lies between
+					between := false
+					for _, o := range l.entries {
+						if o.Kind == "op" && o.Seq > firstWriteSeq && o.Seq < e.Seq && (strings.HasPrefix(o.Text, "header(") || strings.HasPrefix(o.Text, "write(")) {
+							between = true
+						}
+					}
+					if !between {
+						return "bytes-released-although-state-delivery-failed", fmt.Sprintf("base writer received %s at seq %d from the write whose state flush failed", e.Kind, e.Seq)
+					}
+					break
+				}
+			}
+		}
+	}
 	if firstBase != 0 && lastState > firstBase {
 		return "state-delivered-after-first-byte", fmt.Sprintf("state write at seq %d, first header/body release at seq %d", lastState, firstBase)
 	}
@@ -303,9 +350,13 @@ func c11Unit(c *RunCtx, unit int) {
 				cs[k] = "c0-" + k
 			}
 		}
-		l, gets, pan := c11run(prog, ss, cs)
+		failS, failC := r.Intn(12) == 0, r.Intn(12) == 0
+		l, gets, pan := c11run(prog, ss, cs, failS, failC)
 		c.Stats.Evaluations++
-		sig, msg := c11check(prog, l, gets, ss, cs, pan)
+		sig, msg := c11check(prog, l, gets, ss, cs, pan, failS, failC)
+		if failS || failC {
+			c.Stats.Count("programs-with-a-failing-store")
+		}
 		// situation signature: shape of the program
 		ops, writes, wraps, before := 0, 0, 0, 0
 		seenWrite := false
@@ -331,7 +382,7 @@ func c11Unit(c *RunCtx, unit int) {
 				break
 			}
 		}
-		c.Stats.Sig(fmt.Sprintf("ops=%d before=%d writes=%d wraps=%d first=%s", min(ops, 8), min(before, 6), min(writes, 4), wraps, first))
+		c.Stats.Sig(fmt.Sprintf("ops=%d before=%d writes=%d wraps=%d first=%s failS=%v failC=%v", min(ops, 8), min(before, 6), min(writes, 4), wraps, first, failS, failC))
 		if writes > 1 {
 			c.Stats.Count("programs-with-several-writes")
 		}
@@ -370,11 +421,11 @@ func min(a, b int) int {
 func init() {
 	register(&Check{
 		ID: "C11", Level: "exploration",
-		Rule:  "random handler programs (0-25 operations over putS/delS/delAllS/putC/delC/getS/getC/WriteHeader/Write and nesting the writer in wrappers exposing UnderlyingResponseWriter() or Unwrap(), depth <= 4) executed by a handler behind the real LoadClientStateMiddleware with two recording stores and a recording base writer sharing one sequence counter. Offline checker over the log: each store receives <= 1 delivery, exactly the operations made for it before the first write, same order/keys/values, never the other store's; every delivery precedes the first header or body byte released to the base writer; operations after the first write are never delivered; every read returns the request-start value whatever was put earlier. distinct_nontrivial = distinct program shapes (#ops, #ops before first write, #writes, wrapper depth, kind of first write).",
+		Rule:  "random handler programs (0-25 operations over putS/delS/delAllS/putC/delC/getS/getC/WriteHeader/Write and nesting the writer in wrappers exposing UnderlyingResponseWriter() or Unwrap(), depth <= 4; in 1/6 of the programs one of the stores fails its first WriteState and the handler recovers and carries on) executed by a handler behind the real LoadClientStateMiddleware with two recording stores and a recording base writer sharing one sequence counter. Offline checker over the log: each store receives <= 1 delivery, exactly the operations made for it before the first write, same order/keys/values, never the other store's; every delivery precedes the first header or body byte released to the base writer; operations after the first write are never delivered; every read returns the request-start value whatever was put earlier. distinct_nontrivial = distinct program shapes (#ops, #ops before first write, #writes, wrapper depth, kind of first write).",
 		Units: func(t string) int { return tierN(t, 64, 256) },
 		Run:   c11Unit,
 		Floors: func(t string) map[string]int {
-			return map[string]int{"programs-with-several-writes": 1000, "programs-flushing-through-wrappers": 500, "programs-with-ops-after-first-write": 1000}
+			return map[string]int{"programs-with-several-writes": 1000, "programs-flushing-through-wrappers": 500, "programs-with-ops-after-first-write": 1000, "programs-with-a-failing-store": 1000}
 		},
 		Assumptions: []string{"Flush/Hijack and buffering wrappers are outside the alphabet the property quantifies over", "a handler that never writes releases nothing (the library flushes on the first WriteHeader/Write only)"},
 	})
